@@ -156,7 +156,8 @@ Theorem C03_message_zonefile_limits : forall s c : nat,
   (exceeds name_parse_ge s name_parse_lim = false <-> (s <= name_max)%nat) /\
   (exceeds zf_label_fast_ge (1 + c) (1 + zf_label_latest_add) = false <-> (c <= label_max)%nat) /\
   (exceeds zf_label_slow_ge (1 + c) (1 + zf_label_latest_add) = false <-> (c <= label_max)%nat) /\
-  (exceeds zf_name_ge s zf_name_lim = false <-> (s <= check_rel_lim)%nat).
+  (exceeds zf_name_ge s zf_name_lim = false <-> (s <= check_rel_lim)%nat) /\
+  ((s =? c + zf_empty_label_add)%nat = true <-> s = S c).
 Proof. exact message_zonefile_limits. Qed.
 Print Assumptions C03_message_zonefile_limits.
 
@@ -315,3 +316,44 @@ Theorem C03_scan_name_valid : forall origin s n s',
   C07.Model.scan_name origin s = Ok (n, s') -> exists k, valid_abs k /\ n = wire_abs k.
 Proof. exact C03.ProofsZonefile.scan_name_valid. Qed.
 Print Assumptions C03_scan_name_valid.
+
+(* ---- round 3: serde, UncertainName display, three-part chains, constants *)
+Theorem C03_serde_de_rel_valid : forall cs w,
+  serde_de_rel None cs = Ok w -> exists n, valid_rel n /\ w = wire_rel n.
+Proof. exact serde_de_rel_valid. Qed.
+Print Assumptions C03_serde_de_rel_valid.
+
+Theorem C03_uncertain_display_parse_roundtrip : forall n,
+  (valid_rel n -> uncertain_from_chars None (display_uncertain false n) = Ok (false, wire_rel n)) /\
+  (valid_abs n -> n <> [] \/ uncertain_display_root_special && uncertain_from_chars_root_special = true ->
+     uncertain_from_chars None (display_uncertain true n) = Ok (true, wire_abs n)).
+Proof. exact uncertain_display_parse_roundtrip. Qed.
+Print Assumptions C03_uncertain_display_parse_roundtrip.
+
+Theorem C03_uncertain_root_display_refuted :
+  uncertain_display_root_special && uncertain_from_chars_root_special = false ->
+  uncertain_from_chars None (display_uncertain true []) = Err T_EmptyLabel.
+Proof. exact uncertain_root_display_refuted. Qed.
+Print Assumptions C03_uncertain_root_display_refuted.
+
+Theorem C03_chain3_abs_valid : forall a b c, valid_rel a -> valid_rel b -> valid_abs c ->
+  chain3 (wire_len a) (wire_len b) (wire_len c + 1) = Ok tt -> valid_abs (a ++ b ++ c).
+Proof. exact chain3_abs_valid. Qed.
+Print Assumptions C03_chain3_abs_valid.
+
+Theorem C03_constants_valid :
+  check_abs const_root = Ok tt /\ const_root = wire_abs [] /\ const_root_slice = const_root /\
+  const_from_symbols_root = const_root /\
+  check_rel const_empty = Ok tt /\ const_empty = wire_rel [] /\ const_empty_slice = const_empty /\
+  check_rel const_wildcard = Ok tt /\ const_wildcard = wire_rel [[42%N]] /\ const_wildcard_slice = const_wildcard.
+Proof. exact constants_valid. Qed.
+Print Assumptions C03_constants_valid.
+
+Theorem C03_from_builder_inv : forall w st, wf_bytes w -> b_from_builder w = Ok st -> Inv st.
+Proof. exact from_builder_inv. Qed.
+Print Assumptions C03_from_builder_inv.
+
+Theorem C03_name_parse_valid : forall b w, wf_bytes b -> name_parse b = Ok w ->
+  exists n rest, valid_abs n /\ w = wire_abs n /\ b = w ++ rest.
+Proof. exact name_parse_valid. Qed.
+Print Assumptions C03_name_parse_valid.
